@@ -309,6 +309,26 @@ class GroupBy:
         group_key : ArrayType1D
             The group key array to factorize.
         """
+        # Time-zone aware timestamps are factorized as the naive UTC instants they stand for
+        # (the chunks below go through NumPy, which knows no time zones); the labels get
+        # their time zone back at the end.
+        tz = None
+        if series_is_timestamp(group_key):
+            key_type = group_key.dtype if hasattr(group_key, "dtype") else group_key.type
+            tz = getattr(key_type, "tz", None) or getattr(
+                getattr(key_type, "pyarrow_dtype", None), "tz", None
+            )
+            if tz is not None:
+                group_key, _ = _convert_timestamp_to_tz_unaware(group_key)
+
+        def restore_time_zone():
+            if tz is not None:
+                self._result_index = (
+                    pd.DatetimeIndex(self._result_index)
+                    .tz_localize("UTC")
+                    .tz_convert(tz)
+                )
+
         # first try monotonic (increasing) factorization.
         # Optimization for thinks like date/time buckets, cumulative counts etc.
         # Exits as soon as it detects non-monotonicity and uses empty arrays to avoid wasted memory
@@ -317,6 +337,7 @@ class GroupBy:
         if cutoff == len(group_key):
             # group_key is fully monotonic
             self._group_ikey, self._result_index = mono_codes, pd.Index(mono_uniques)
+            restore_time_zone()
             return
 
         use_monotonic_piece = cutoff > len(group_key) / 4
@@ -351,6 +372,7 @@ class GroupBy:
         arg_list = [(pd.Index(self.result_index), arr) for arr in unique_list]
         self._group_key_pointers = parallel_map(get_indexer, arg_list)
         self._group_ikey = pa.chunked_array(codes_list)
+        restore_time_zone()
 
     @property
     def key_is_chunked(self) -> bool:
